@@ -7,7 +7,7 @@
    parked where it should not be; that worker functions return is the property's own
    hypothesis. *)
 From Coq Require Import List Arith.
-From VQ Require Import SliceWake SliceWakeProofs SliceBatch SliceBatchProofs Lockset LocksetProofs SlicePool SlicePoolProofs.
+From VQ Require Import SliceWake SliceWakeProofs SliceBatch SliceBatchProofs Lockset LocksetProofs SlicePool SlicePoolProofs LList LListProofs.
 Import ListNotations.
 
 (* No lost wake-up: whenever the event loop is parked while its guard is true, a signal is
@@ -56,6 +56,15 @@ Theorem C03_dispatched_job_is_received :
   forall s g, PReachable s -> jobsq s = 1 -> exists s', pstep s (NRecvJob g) = Some s'.
 Proof. exact job_is_receivable. Qed.
 Print Assumptions C03_dispatched_job_is_received.
+
+(* The idle list (coq/LList.v, tied to internal/linkedlist by the differential test): a node the
+   dispatcher has popped is not in the list, so the Remove of the idle-worker reaper or of Stop —
+   working from an older snapshot — answers false for it and leaves it alone; Remove answers true
+   exactly for members and takes them out. *)
+Theorem C03_popped_node_is_not_removed :
+  forall l x l', LLReachable l -> ll_popback l = (Some x, l') -> fst (ll_remove l' x) = false.
+Proof. exact remove_after_popback_false. Qed.
+Print Assumptions C03_popped_node_is_not_removed.
 
 (* non-vacuity: a completion makes room while the loop is parked; its notify wakes the loop *)
 Example C03_example :
